@@ -67,7 +67,8 @@ def main():
     os.makedirs(os.path.join(common.VERIF, "findings"), exist_ok=True)
     for fid, bysym in assigned.items():
         prop, component, text, _ = DEFS[fid]
-        cells = sorted(set().union(*bysym.values()))
+        # one line per (cell, symptom): a cell that fails in ANOTHER way than recorded is a different violation and is reported
+        cells = sorted(c + "\t" + sym for sym, cs in bysym.items() for c in cs)
         rel = "findings/{}.cells".format(fid)
         with open(os.path.join(common.VERIF, rel), "w") as f:
             f.write("\n".join(cells) + "\n")
